@@ -1810,6 +1810,10 @@ class Interp:
             pass
         except BreakSig:
             pass
+        except ReturnSig:
+            # the fragment leaves the enclosing function: an outcome of its own ('FragmentReturn'), which a step contract must
+            # name among its allowed raises if it is legitimate - otherwise the step lemma's frame (falls through) is broken
+            self.raise_exc('FragmentReturn', 'the extracted statements executed a return of the enclosing function')
         return frame.locals
 
     def bind_args(self, fv, args, kwargs):
